@@ -62,7 +62,7 @@ def run(ctx):
     ctx.floor(nf, 1, 'DUP=false sites')
     vp = ctx.fn('publish::validate_publish_packet_outbound')
     errs = prims.err_blocks(vp)
-    ctx.ob(any(guarded_any(vp, b, [r'^packet\.duplicate$']) for b in errs), 'submit-time validation rejects a user publish with duplicate == true', 'dup-validate', loc=vp.loc())
+    ctx.ob(prims.rets_after(vp, [r'^packet\.duplicate$']) == {'Err'}, 'submit-time validation always rejects a user publish with duplicate == true', 'dup-validate', loc=vp.loc())
 
     # ------------------------------------------------------------ R-C04-2 PUBREL phase
     ctx.rule('R-C04-2', 'T1 + T2', 'the PUBREL phase is entered only by a non-failing PUBREC for a pending QoS 2 publish, left only when the operation restarts from the user queue at CONNACK, and honoured by the service loop')
@@ -143,6 +143,20 @@ def run(ctx):
             ctx.ob(ok, 'current operation pushed into %s at close only where it cannot carry a PUBREL' % f, 'current-requeue|%s|%s' % (f, 'when-duplicate' if any(re.search(r'\.duplicate$', g) and not g.startswith('!') for g in guard_strs(cc, m.bb)) else ('subscribe-unsubscribe' if any('Subscribe' in g for g in guard_strs(cc, m.bb)) else 'publish-policy')), loc=m.loc(),
                    detail=None if ok else 'guards: ' + ' ; '.join(guard_strs(cc, m.bb)))
     ctx.floor(npush, 3, 'current-operation re-queue sites at close')
+    # an interrupted *retransmission* (DUP set) keeps its place in the resubmit queue: it may not be demoted to the user queue
+    for m in prims.mutations(cc):
+        if m.kind == 'mutcall' and prims.self_field(m.path) == 'user_operation_queue' and m.method in ('push_front', 'push_back') and guarded_any(cc, m.bb, [r'\.packet is Publish$']):
+            ctx.ob(guarded_any(cc, m.bb, [r'^!.*\.packet@Publish\.0\.duplicate$']), 'a current publish is put back into the user queue only when it is not a retransmission (DUP clear)', 'current-requeue|user|not-dup', loc=m.loc())
+    after_dup = prims.rets_after(cc, [r'\.packet is Publish$', r'^\(?.*\.packet@Publish\.0\.duplicate\)?$'])
+    dup_edges = [en for en in prims.edge_nodes_matching(cc, [r'^[^!].*\.packet@Publish\.0\.duplicate$'])]
+    okd = bool(dup_edges)
+    for en in dup_edges:
+        r = cc.reach([en])
+        tgt = [m.bb for m in prims.mutations(cc) if m.kind == 'mutcall' and prims.self_field(m.path) in ('resubmit_operation_queue', 'high_priority_operation_queue') and m.method == 'push_front']
+        fails = [c.bb for c in cc.calls('ProtocolState::complete_operation_as_failure')]
+        users = [m.bb for m in prims.mutations(cc) if m.kind == 'mutcall' and prims.self_field(m.path) == 'user_operation_queue']
+        okd = okd and any(b in r for b in tgt) and not any(b in r for b in fails) and not any(b in r for b in users)
+    ctx.ob(okd, 'once the current publish is known to be a retransmission it is always retained (resubmit / high-priority), never failed or demoted', 'current-requeue|dup-complete', loc=cc.loc())
 
     # ------------------------------------------------------------ R-C04-6 session absent
     ctx.rule('R-C04-6', 'T3 ordering', 'without a session every resubmit entry goes through the offline-policy partition: retained ones restart (DUP cleared, moved to the user queue), rejected ones fail')
